@@ -9,6 +9,7 @@ import (
 	"go/constant"
 	"go/token"
 	"go/types"
+	"golang.org/x/tools/go/types/typeutil"
 	"regexp/syntax"
 	"sort"
 	"strconv"
@@ -43,6 +44,13 @@ func (c *Check) nameRegexpImpl(prefix string) {
 				pat := constant.StringVal(tv.Value)
 				ok2, why := patternExcludesNUL(pat)
 				c.req(ok2, prefix+".K2", "types.reServiceName", vs.Pos(), "A-NAME: "+strconv.Quote(pat)+": "+why)
+				// a service name is also joined with other identifiers into composite strings that block processing splits again
+				// (the per-provider event key "<service>.<provider>"): the separator of every such split is outside the names' alphabet
+				for _, sep := range c.compositeSeparators() {
+					ok3, why3 := patternExcludesRune(pat, sep)
+					c.req(ok3, prefix+".K2", fmt.Sprintf("types.reServiceName#excludes-separator:%q", sep), vs.Pos(),
+						fmt.Sprintf("service names exclude %q, on which end-of-block code splits an identifier composed of a service name: %s", sep, why3))
+				}
 			}
 			return true
 		})
@@ -67,6 +75,11 @@ func (c *Check) nameRegexpImpl(prefix string) {
 }
 
 func patternExcludesNUL(pat string) (bool, string) {
+	return patternExcludesRune(pat, 0)
+}
+
+// patternExcludesRune: no string the anchored pattern matches contains the rune.
+func patternExcludesRune(pat string, x rune) (bool, string) {
 	re, err := syntax.Parse(pat, syntax.Perl)
 	if err != nil {
 		return false, "cannot parse: " + err.Error()
@@ -81,14 +94,14 @@ func patternExcludesNUL(pat string) (bool, string) {
 			bad = "matches any character"
 		case syntax.OpCharClass:
 			for i := 0; i+1 < len(r.Rune); i += 2 {
-				if r.Rune[i] == 0 {
-					bad = "character class includes 0x00"
+				if r.Rune[i] <= x && x <= r.Rune[i+1] {
+					bad = fmt.Sprintf("character class includes %q", x)
 				}
 			}
 		case syntax.OpLiteral:
 			for _, ru := range r.Rune {
-				if ru == 0 {
-					bad = "literal 0x00"
+				if ru == x {
+					bad = fmt.Sprintf("literal %q", x)
 				}
 			}
 		case syntax.OpBeginText:
@@ -107,7 +120,7 @@ func patternExcludesNUL(pat string) (bool, string) {
 	if !begin || !end {
 		return false, "pattern is not anchored at both ends"
 	}
-	return true, "anchored, no character class admits 0x00"
+	return true, fmt.Sprintf("anchored, no character class admits %q", x)
 }
 
 // ------------------------------------------------------------- id layout
@@ -797,4 +810,36 @@ func (c *Check) createRejectsBeforeStore(rule string) {
 			"no rejecting exit of the context constructor follows a store write"+condStr(bad != "", ": the exit at "+c.pos(badPos)+" rejects after "+bad))
 	}
 	c.req(n >= 1, rule, "context-constructor", token.NoPos, fmt.Sprintf("%d function(s) store a newly built request context", n))
+}
+
+// compositeSeparators: the one-character constant separators of strings.Split calls in the module's block-processing code
+// (package service) whose operand is not a store key — identifiers the module composed itself and takes apart again.
+func (c *Check) compositeSeparators() []rune {
+	seen := map[rune]bool{}
+	for _, f := range c.handFuncs("service") {
+		if f.Body == nil {
+			continue
+		}
+		info := f.Pkg.TypesInfo
+		ast.Inspect(f.Body, func(nd ast.Node) bool {
+			call, ok := nd.(*ast.CallExpr)
+			if !ok || len(call.Args) != 2 {
+				return true
+			}
+			if fn, isFn := typeutil.Callee(info, call).(*types.Func); isFn && fn.Pkg() != nil && fn.Pkg().Path() == "strings" && (fn.Name() == "Split" || fn.Name() == "SplitN") {
+				if tv, ok := info.Types[call.Args[1]]; ok && tv.Value != nil && tv.Value.Kind() == constant.String {
+					if s := constant.StringVal(tv.Value); len([]rune(s)) == 1 {
+						seen[[]rune(s)[0]] = true
+					}
+				}
+			}
+			return true
+		})
+	}
+	var out []rune
+	for r := range seen {
+		out = append(out, r)
+	}
+	sort.Slice(out, func(i, j int) bool { return out[i] < out[j] })
+	return out
 }
